@@ -38,6 +38,9 @@ def drawM (inMulti : Bool) : List LAct := if inMulti then [acq M, rel M] else []
 def stopTicker (ticker : Bool) : List LAct :=
   if ticker then [acq C, rel C, notify, acq C, rel C, notify, join] else []
 
+/-- the `update()` repair is in the repository now; the harness runs the model with this value (`FX=current`) -/
+def currentF8 : Bool := true
+
 /-- `f8 = false`: the pinned `update()` (bar state first, then the ticker slot, which stays locked
 until the end of the statement); `f8 = true`: the repaired order -/
 def program (f8 : Bool) (call : Call) (inMulti ticker : Bool) : List LAct :=
